@@ -764,7 +764,64 @@ def r_shape(f):
                 RH.inst(b.ident, "every normal path from %s to return restores the length" % fn["path"].split("::")[-1], ok)
                 if not ok:
                     RH.fail(b.ident, "no-restore:%s" % fn["path"].split("::")[-1], "%s can return after %s without restoring the Vec length" % (b.ident, fn["path"]), b.where(t["span"]))
+    # R-RESTORE: the destructor of a drain type handed to the caller must complete its restore also when caller
+    # code (an element's Drop) panics inside it: every may-unwind point of that destructor, while the restore
+    # is pending, is covered by a restorer guard (unwind outcome in product form, like the normal exit)
+    RR = Result("R-RESTORE")
+    for ap, db in cx.drop_of.items():
+        if not is_shape_writer(cx, db):
+            continue
+        # handed to the caller: some exported function returns it
+        handed = any(returns_leakable(cx, b) == ap for b in f.fn_bodies if b.kind != "Closure")
+        if not handed:
+            continue
+        for fnr in done.get(db.id, []):
+            normal = {s_ for s_ in fnr.exit_states}
+            restores = bool(normal) and all(s_[0] == "P" for s_ in normal)
+            if not restores:
+                continue
+            for (pk, st, intermediate, outs) in getattr(fnr, "points", []):
+                if not intermediate or "<caller>" not in pk and not pk.startswith("call:drop") and not pk.startswith("drop:") and not pk.startswith("call:for_each"):
+                    continue
+                ok = bool(outs) and all(o[0] == "P" for o in outs)
+                RR.inst(db.ident, "caller code at %s (state %s) is covered by a restorer guard: unwind outcome %s" % (pk, st, outs), ok)
+                if not ok:
+                    RR.fail(db.ident, "unguarded:%s" % pk, "%s runs caller code (%s) with the restore still pending and no live guard: if it panics, the compaction never happens and the array is left empty instead of 'the original without the removed line'" % (db.ident, pk), db.where())
+    # R-DRAINSTEP: the iterator impls of a hand-made drain only single-step the embedded cursor and read out exactly
+    # the element stepped over (anything that jumps - nth, nth_back, skip, advance_by, last - forgets elements)
+    RS = Result("R-DRAINSTEP")
+    for ap, db in cx.drop_of.items():
+        if not is_shape_writer(cx, db):
+            continue
+        tyhead = ap.split("::")[-1]
+        for b in f.fn_bodies:
+            if b.self_head != tyhead or not b.impl_trait or b.trait_head not in ("Iterator", "DoubleEndedIterator", "ExactSizeIterator") or b.kind != "AssocFn":
+                continue
+            bad = []
+            steps = 0
+            for bi, t, fn in b.calls():
+                if not fn:
+                    continue
+                st_ = fn.get("self_ty") or ""
+                on_cursor = re.search(r"iter::(Col|ColMut|Rows|RowsMut)<", st_) is not None or re.search(r"iter::(Col|ColMut|Rows|RowsMut)<", fn.get("resolved") or "") is not None
+                if not on_cursor:
+                    continue
+                if fn["name"] in ("next", "next_back"):
+                    steps += 1
+                elif fn["name"] in ("size_hint", "len", "is_empty"):
+                    pass
+                else:
+                    bad.append((fn["name"], t["span"]))
+            # every step's result is read out with ptr::read in this body or its closures
+            reads = sum(1 for c in [b] + b.closures() for _, _, fn2 in c.calls() if fn2 and fn2["path"] in ("core::ptr::read", "core::ptr::const_ptr::<impl *const T>::read", "core::ptr::mut_ptr::<impl *mut T>::read"))
+            if steps or bad:
+                ok = not bad and reads >= steps
+                RS.inst(b.ident, "advances the embedded cursor only by single steps (%d) and reads out each stepped-over element (%d ptr::read)" % (steps, reads), ok)
+                for nm, sp in bad:
+                    RS.fail(b.ident, "jump:%s" % nm, "%s advances the drain's embedded cursor with %s: the elements jumped over are neither yielded nor dropped, and the destructor then overwrites them (leak)" % (b.ident, nm), b.where(sp))
+                if not bad and reads < steps:
+                    RS.fail(b.ident, "no-read", "%s steps the embedded cursor without reading the element out" % b.ident, b.where())
     RU.require_floor(n_fn, 7, "shape-writing functions")
     RH.require_floor(n_raw, 11, "raw-move call sites")
     RD.require_floor(n_drain, 1, "Vec::drain sites over the array buffer")
-    return [RU, RL, RD, RH], {"writers": [b.ident for b in writers], "raw_sites": n_raw, "delegators": [b.ident for b in delegators], "adt_entry": {k: sorted(v) for k, v in adt_entry.items() if "toodee" in k or "iter::" in k}}
+    return [RU, RL, RD, RH, RR, RS], {"writers": [b.ident for b in writers], "raw_sites": n_raw, "delegators": [b.ident for b in delegators], "adt_entry": {k: sorted(v) for k, v in adt_entry.items() if "toodee" in k or "iter::" in k}}
